@@ -36,15 +36,23 @@ def one(seed_dir: str) -> dict:
         if r.returncode != 0:
             return {'id': sid, 'path': str(sd), 'applied': False, 'error': (r.stdout + r.stderr)[-300:]}
         fired = {}
+        import time as _t
+        t0 = _t.time()
+        from emsverif.model import Program
+        try:
+            prog = Program(str(scratch))
+        except Exception:
+            prog = None
         for pid in ALL:
             buf = io.StringIO()
             with contextlib.redirect_stdout(buf):
-                rc = run_property(pid, str(scratch), 'quick', 0, write_evidence=False, replay_dir=scratch / 'replay')
+                rc = run_property(pid, str(scratch), 'quick', 0, write_evidence=False, replay_dir=scratch / 'replay', program=prog)
             if rc != 0:
                 out = buf.getvalue()
                 rules = sorted({l.split()[1] for l in out.splitlines() if l.strip().startswith('VIOLATED ')})
                 fired[pid] = {'rc': rc, 'rules': rules, 'error': [l for l in out.splitlines() if 'ANALYSIS-ERROR' in l][:1]}
         prop = sid.split('-')[0]
+        print(f"  swept {sid} in {_t.time() - t0:.0f}s", file=sys.stderr, flush=True)
         return {'id': sid, 'path': str(sd), 'applied': True, 'how': how, 'fired': fired,
                 'detected_by_own_property': fired.get(prop, {}).get('rc') == 1,
                 'detected': any(v['rc'] == 1 for v in fired.values())}
